@@ -12,7 +12,7 @@ for d in sorted(glob.glob(f'/verif/seeded/{pid}-*')):
     m = json.load(open(d + '/meta.json'))
     files = re.findall(r'^\+\+\+ b/(.*)$', open(d + '/patch.diff').read(), re.M)
     prev.append(f"  - in {', '.join(files)}: manifests with {m.get('needs')}")
-avoid = ("\n\nChanges that were ALREADY tried for this property (do something DIFFERENT: another file, protocol, entry point or mechanism among those the property covers; prefer parts of the code the earlier changes did not touch):\n" + "\n".join(prev) + "\n") if prev else "\n"
+avoid = ("\n\nChanges that were ALREADY tried for this property (do something DIFFERENT: another file, protocol, entry point or mechanism among those the property covers; prefer parts of the code the earlier changes did not touch; consider less obvious places too: shared helpers, conversions between types, defaults, glue code between layers, error paths, rarely used options):\n" + "\n".join(prev) + "\n") if prev else "\n"
 out = f"""You are helping to evaluate a verification tool. Work ONLY inside the git worktree {wt} (a checkout of the Rust project gamedig/rust-gamedig: a library + CLI that queries game servers over Valve A2S, GameSpy 1-3, Quake, Unreal 2, Minecraft and other protocols). Do not read or touch /repo, /verif or any other directory outside {wt} (your own scratch files may go in {wt}-work). There is no network; build with `cargo ... --offline`.
 
 The following semantic property is supposed to hold for this code base:
